@@ -191,7 +191,7 @@ int mon_illdim(const mon_args_t *a) {
     int st = 0;
     waitpid(pid, &st, 0);
     char key[256];
-    int san = strstr(buf, "AddressSanitizer") || strstr(buf, "runtime error:");
+    int san = strstr(buf, "ERROR: AddressSanitizer") || strstr(buf, "runtime error:");
     if (san) {
       snprintf(key, sizeof key, "%s|sanitizer-report", kp);
       hx_fail(key, "sanitizer report during an ill-dimensioned call: %.600s", buf);
